@@ -57,8 +57,10 @@ class DSReplayer:
     self.pre_leaves = [n for n, lf in self.ref0.leaves.items() if not lf.skip]
 
   def init(self):
-    return {"s": self.runner.init(), "g": self.graft_runner.init(),
-            "r": self.ref0.copy(), "tainted": False}
+    s0 = self.runner.init()
+    return {"s": s0, "g": self.graft_runner.init(),
+            "r": self.ref0.copy(), "tainted": False,
+            "stats_at_refresh": None}
 
   def grad(self, ev, t):
     if ev == "ok":
@@ -110,7 +112,8 @@ class DSReplayer:
       viol("stats_changed_off_schedule", "statistics changed on step %d "
            "which is not a multiple of the statistics interval %d" %
            (t, m["S"]))
-    elif m2["sv"] != m["sv"] and same_stats and not m2["poisoned"]:
+    elif m2["sv"] != m["sv"] and same_stats and not m2["poisoned"] and \
+        ev != "zero":
       viol("stats_not_updated", "statistics unchanged on step %d, a "
            "multiple of the statistics interval %d" % (t, m["S"]))
     else:
@@ -122,7 +125,11 @@ class DSReplayer:
              if m2["poisoned"] else "not a refresh step or same statistics")
       viol("precond_changed", "stored preconditioner changed on step %d "
            "although the model keeps it (%s)" % (t, why))
-    elif m2["pv"] != m["pv"] and same_precs:
+    elif m2["pv"] != m["pv"] and same_precs and (
+        st["stats_at_refresh"] is None or
+        not _same(o2[0], st["stats_at_refresh"])):
+      # (a refresh from statistics whose bytes did not change since the last
+      # refresh legitimately reproduces the same preconditioner)
       viol("precond_not_refreshed", "preconditioner not refreshed on step "
            "%d (interval %s)" % (t, m["P"]))
     else:
@@ -198,7 +205,9 @@ class DSReplayer:
       acc.outcome("tainted_step")
       # keep the reference aligned on versions only
       ref.count += 1
-    return {"s": s2, "g": g2, "r": ref, "tainted": tainted}
+    return {"s": s2, "g": g2, "r": ref, "tainted": tainted,
+            "stats_at_refresh": o2[0] if m2["mv"] != m["mv"]
+            else st["stats_at_refresh"]}
 
 
 # ---------------------------------------------------------------------------
@@ -254,7 +263,7 @@ class TFReplayer:
   def init(self):
     return {"s": self.opt.init(self.params),
             "g": self.opt_graft.init(self.params),
-            "p": self.opt_pre.init(self.params)}
+            "p": self.opt_pre.init(self.params), "stats_at_refresh": None}
 
   def _so_state(self, s):
     graft_state = s[0]
@@ -308,7 +317,12 @@ class TFReplayer:
     if m2["pv"] == m["pv"] and not same_precs:
       viol("precond_changed", "tearfree preconditioner changed on step %d "
            "(interval %d)" % (t, m["P"]))
-    elif m2["pv"] != m["pv"] and same_precs and ev != "zero":
+    elif m2["pv"] != m["pv"] and same_precs and (
+        st["stats_at_refresh"] is None or
+        not _same(o2[0], st["stats_at_refresh"])) and \
+        any(np.any(x != 0) for x in o2[0]):
+      # identical or all-zero statistics legitimately reproduce the same
+      # roots; anything else must show up in the stored bytes
       viol("precond_not_refreshed", "tearfree preconditioner not refreshed "
            "on step %d (interval %d)" % (t, m["P"]))
     else:
@@ -331,7 +345,9 @@ class TFReplayer:
                "%d is not the preconditioned update" % (n, t, m["start"]))
         else:
           acc.outcome("precond_update_ok")
-    return {"s": s2, "g": g2, "p": p2}
+    return {"s": s2, "g": g2, "p": p2,
+            "stats_at_refresh": o2[0] if m2["mv"] != m["mv"]
+            else st["stats_at_refresh"]}
 
 
 def replay_all_paths(acc, sub, replayer, sigbase, case):
